@@ -1,5 +1,12 @@
 (** Geo3Glue — result type of the translated len(m) -> kernel dispatch of measure_coordinates (C18). *)
+From Coq Require Import List ZArith.
 Require Import QV.Common.Outcome.
 Inductive dispatch :=
 | DDistance (passes_degrees : bool) | DAngle (passes_degrees : bool) | DDihedral (passes_degrees : bool)
 | DErr (k : ekind).
+
+(** argument and result of measure_coordinates: one measurement (a list of indices; the value is returned bare) or a list of
+    measurements (a list of values is returned) *)
+Inductive measurements := MOne (m : list Z) | MMany (ms : list (list Z)).
+Inductive mresult (V : Type) := ROne (v : V) | RMany (vs : list V).
+Arguments ROne {V} v. Arguments RMany {V} vs.
